@@ -6,6 +6,7 @@ GROUPS = [
     dict(name='trywait', tu='semaphore.c', harness='h_trywait', mode='D', enforce='fiber_semaphore_trywait', replace=PARK, functions=['fiber_semaphore_trywait']),
     dict(name='post_internal', tu='semaphore.c', harness='h_post_internal', mode='D', enforce='fiber_semaphore_post_internal', replace=PARK, functions=['fiber_semaphore_post_internal']),
     dict(name='post', tu='semaphore.c', harness='h_post', mode='D', enforce='fiber_semaphore_post', replace=PARK + ['fiber_semaphore_post_internal'], functions=['fiber_semaphore_post']),
+    dict(name='init', tu='semaphore.c', harness='h_init', mode='H', functions=['fiber_semaphore_init'], unwind=2, exact_unwind=True),
     dict(name='lemmas', tu='lemmas.c', kind='lemmas', harness='', no_native='pure lemma'),
 ]
 ASSUMPTIONS = ['A5 |counter|, waiters and posts in flight below 2^30',
